@@ -334,6 +334,13 @@ impl InterfaceInner {
                     return;
                 }
 
+                // Only replies generated on the ingress path get here while another
+                // packet is still being fragmented; they cannot be queued.
+                if !pkt.is_empty() && !pkt.finished() {
+                    net_debug!("dispatch_ieee802154: dropping, fragmentation buffer is in use");
+                    return;
+                }
+
                 let payload_length = packet.header.payload_len;
 
                 Self::ipv6_to_sixlowpan(
